@@ -139,6 +139,10 @@ impl<'xml> Deserializer<'xml> {
                     if self.depth == 0 && !x.iter().all(|&b| is_xml_whitespace(b)) {
                         return Err(DeError::InvalidContent);
                     }
+                    // `]]>` ends a CDATA section and must not occur in character data (XML 1.0, production [14]).
+                    if x.windows(3).any(|w| w == b"]]>") {
+                        return Err(DeError::InvalidContent);
+                    }
                     DeEvent::Text(x)
                 }
                 Event::CData(x) => {
